@@ -16,6 +16,9 @@ class VirtualLoop(asyncio.SelectorEventLoop):
 
     def __init__(self) -> None:
         super().__init__()
+        # float64 cannot represent t + 1e-9 for virtual times beyond ~4e6 s: a timer due exactly
+        # "now" would then never be considered due and the frozen clock would spin for ever
+        self._clock_resolution = 1e-6
         self._vtime = 0.0
         self.iterations = 0
         self._spin = 0
@@ -33,7 +36,10 @@ class VirtualLoop(asyncio.SelectorEventLoop):
             if timeout is not None and timeout <= 0:
                 self._spin += 1
                 if self._spin > SPIN_LIMIT:
-                    raise SpinError(f"{self._spin} loop iterations at virtual time {self._vtime}")
+                    sample = [repr(h)[:160] for h in list(self._ready)[:4]]
+                    sched = [repr(h)[:120] for h in self._scheduled[:3]]
+                    raise SpinError(f"{self._spin} loop iterations at virtual time "
+                                    f"{self._vtime}; ready={sample} scheduled={sched}")
                 return events
             self._spin = 0
             # nothing is ready at this instant
